@@ -433,3 +433,21 @@
       (and ((_ is box<cty.IndexStep>) x) (wf_deep (cty.IndexStep.Key (unbox<cty.IndexStep> x))))))
 (define-fun path_wf ((p Slice) (n Int)) Bool
   (forall ((j Int)) (! (=> (and (trig j) (<= 0 j) (< j n)) (step_wf (path_at p j))) :pattern ((trig j)))))
+
+; ---- Go-value bridging (C18): reflect is an external; a settable reflect.Value is modelled as a
+; ---- reference (its ptr field) into the typed heaps, with uninterpreted kind / type / bits observations
+(declare-fun rv_type (reflect.Value) Any)
+(declare-fun rv_kind (reflect.Value) Int)
+(declare-fun rt_bits (Any) Int)
+(declare-fun bf.uint64 (math/big.Float) Int)
+(declare-fun bf.accu64 (math/big.Float) Int)
+(declare-fun bf.f64 (math/big.Float) F64)
+(declare-fun bf.accf64 (math/big.Float) Int)
+(define-fun int_min ((bits Int)) Int (ite (= bits 8) (- 128) (ite (= bits 16) (- 32768) (ite (= bits 32) (- 2147483648) (- 9223372036854775808)))))
+(define-fun int_max ((bits Int)) Int (ite (= bits 8) 127 (ite (= bits 16) 32767 (ite (= bits 32) 2147483647 9223372036854775807))))
+(define-fun uint_max ((bits Int)) Int (ite (= bits 8) 255 (ite (= bits 16) 65535 (ite (= bits 32) 4294967295 18446744073709551615))))
+(define-fun bits_ok ((b Int)) Bool (or (= b 8) (= b 16) (= b 32) (= b 64)))
+(define-fun f64_isinf ((x F64)) Bool (or (f64.isinf x 1) (f64.isinf x (- 1))))
+; IEEE fact about narrowing to float32 (assumed): a finite float64 within the float32 range stays finite
+(declare-fun f64.abs_le_maxf32 (F64) Bool)
+(assert (forall ((x F64)) (! (=> (f64.abs_le_maxf32 x) (not (f64_isinf (f64.to_f32 x)))) :pattern ((f64.to_f32 x)))))
